@@ -3,12 +3,16 @@ use crate::out::Out;
 
 pub mod exec;
 pub mod inset;
+pub mod nest;
+pub mod typing;
 pub mod tyenc;
 
 pub fn run(stream: &str, cfg: Cfg, out: &mut Out) -> bool {
     match stream {
         "inset" => inset::run(cfg, out),
         "tyenc" => tyenc::run(cfg, out),
+        "nest" => nest::run(cfg, out),
+        "typing" => typing::run(cfg, out),
         s if s.starts_with("exec-") => exec::run(&s[5..], cfg, out),
         _ => return false,
     }
